@@ -59,7 +59,15 @@ def build_harness(run, race=False):
     but not of a property: exit 2 with the compiler output."""
     os.makedirs(os.path.join(OUT, "bin"), exist_ok=True)
     exe = os.path.join(OUT, "bin", "vh-race" if race else "vh")
-    cmd = ["go", "build", "-tags", "verif"] + (["-race"] if race else []) + ["-o", exe, "."]
+    modflag = []
+    if os.path.realpath(REPO) != "/repo":
+        # development only (bin/mutcheck): build against a scratch copy of the repository
+        exe += "." + hashlib.md5(REPO.encode()).hexdigest()[:8]
+        mf = os.path.join(OUT, "bin", "go.%s.mod" % hashlib.md5(REPO.encode()).hexdigest()[:8])
+        with open(mf, "w") as f:
+            f.write(open(os.path.join(VERIF, "harness", "go.mod")).read().replace("=> /repo", "=> " + REPO))
+        modflag = ["-modfile=" + mf]
+    cmd = ["go", "build", "-tags", "verif"] + modflag + (["-race"] if race else []) + ["-o", exe, "."]
     p = subprocess.run(cmd, cwd=os.path.join(VERIF, "harness"), env=GOENV,
                        stdout=subprocess.PIPE, stderr=subprocess.STDOUT, text=True)
     if p.returncode != 0:
@@ -67,7 +75,7 @@ def build_harness(run, race=False):
     return exe
 
 def build_cli(run):
-    exe = os.path.join(OUT, "bin", "univers")
+    exe = os.path.join(OUT, "bin", "univers" + ("" if os.path.realpath(REPO) == "/repo" else "." + hashlib.md5(REPO.encode()).hexdigest()[:8]))
     p = subprocess.run(["go", "build", "-tags", "verif", "-o", exe, "./cmd"], cwd=REPO, env=GOENV,
                        stdout=subprocess.PIPE, stderr=subprocess.STDOUT, text=True)
     if p.returncode != 0:
@@ -352,8 +360,11 @@ def finish(run, level="model_checking", rule="", exhaustive=False, judged=None, 
         "violations": len(run.violations),
         "known_findings_hit": run.known,
     }
-    os.makedirs(os.path.join(VERIF, "evidence"), exist_ok=True)
-    with open(os.path.join(VERIF, "evidence", run.pid + ".json"), "w") as f:
+    # evidence is only ever written by runs against /repo itself; development runs against a scratch copy
+    # (bin/mutcheck, VERIF_REPO) write theirs under out/
+    evdir = os.path.join(VERIF, "evidence") if os.path.realpath(REPO) == "/repo" else os.path.join(OUT, "evidence.scratch")
+    os.makedirs(evdir, exist_ok=True)
+    with open(os.path.join(evdir, run.pid + ".json"), "w") as f:
         json.dump(ev, f, indent=1, sort_keys=True)
         f.write("\n")
     for fid, cnt in sorted(run.known.items()):
@@ -362,7 +373,7 @@ def finish(run, level="model_checking", rule="", exhaustive=False, judged=None, 
         log("KNOWN-FINDING: property=%s %s (%d observations) %s" % (run.pid, fid, cnt, what))
     code = 0
     if run.violations:
-        rdir = os.path.join(OUT, "replay")
+        rdir = os.path.join(OUT, "replay" if os.path.realpath(REPO) == "/repo" else "replay.scratch")
         os.makedirs(rdir, exist_ok=True)
         # group violations into at most 5 replay files
         for i, v in enumerate(run.violations[:5]):
